@@ -25,7 +25,7 @@ Inductive col :=
 Record tlit := { l_us : Z; l_ok : bool }.      (* value; does Go's parseDateTime accept the spelling? *)
 
 Inductive cmpop := OGe | OGt | OLt | OLe | OEq | ONe.
-Inductive runit := RSecond | RMinute | RHour | RDay | RWeek.
+Inductive runit := RSecond | RMinute | RHour | RDay | RWeek | RMonth.
 
 Inductive atom :=
 | ACmp (c : col) (op : cmpop) (l : tlit)                       (* c op 'literal' *)
@@ -55,15 +55,47 @@ Definition cmp (op : cmpop) (a b : Z) : bool :=
 Definition runit_us (u : runit) : Z :=
   match u with
   | RSecond => US | RMinute => 60 * US | RHour => HOUR | RDay => DAY | RWeek => 7 * DAY
+  | RMonth => 0          (* not a fixed length: see go_add_months / duck_add_months *)
   end.
 
-Definition rel_time (now : Z) (add : bool) (n : Z) (u : runit) : Z :=
-  if add then now + n * runit_us u else now - n * runit_us u.
+(* month arithmetic on a UTC instant (microseconds): the calendar date moves by n months, the
+   time of day is kept.  The two implementations differ in what they do when the target month is
+   shorter than the day of month:
+   - Go  now.AddDate(0, n, 0)  normalises the overflow (Jan 31 + 1 month = Mar 2/3);
+   - DuckDB  ts +/- INTERVAL 'n months'  clamps to the last day of the month (Feb 28/29). *)
+Definition norm_month (y m n : Z) : Z * Z :=
+  let k := y * 12 + (m - 1) + n in (k / 12, k mod 12 + 1).
+
+Definition go_add_months (t n : Z) : Z :=
+  let '(y, m, d) := civil_from_days (t / DAY) in
+  let '(y', m') := norm_month y m n in
+  (days_from_civil y' m' 1 + (d - 1)) * DAY + t mod DAY.
+
+Definition duck_add_months (t n : Z) : Z :=
+  let '(y, m, d) := civil_from_days (t / DAY) in
+  let '(y', m') := norm_month y m n in
+  days_from_civil y' m' (Z.min d (days_in_month y' m')) * DAY + t mod DAY.
+
+Definition signed (add : bool) (n : Z) : Z := if add then n else - n.
+
+(* evaluateRelativeTime (the pruner's reading of NOW() +/- INTERVAL 'n unit') *)
+Definition rel_time_go (now : Z) (add : bool) (n : Z) (u : runit) : Z :=
+  match u with
+  | RMonth => go_add_months now (signed add n)
+  | _ => now + signed add n * runit_us u
+  end.
+
+(* DuckDB's value of the same expression *)
+Definition rel_time_db (now : Z) (add : bool) (n : Z) (u : runit) : Z :=
+  match u with
+  | RMonth => duck_add_months now (signed add n)
+  | _ => now + signed add n * runit_us u
+  end.
 
 Definition eval_atom (r : row) (now : Z) (a : atom) : bool :=
   match a with
   | ACmp c op l => cmp op (colval r c) (l_us l)
-  | ARel c op add n u => cmp op (colval r c) (rel_time now add n u)
+  | ARel c op add n u => cmp op (colval r c) (rel_time_db now add n u)
   | ABetween c l1 l2 => (l_us l1 <=? colval r c) && (colval r c <=? l_us l2)
   | AFlag k => nth k (r_flags r) false
   end.
@@ -149,9 +181,9 @@ Definition m_rel (lower add : bool) (a : atom) : option (cmpop * Z * runit) :=
 
 Definition rel_bound (lower : bool) (l : list atom) (now : Z) : option (Z * cmpop) :=
   match find_first (m_rel lower false) l with
-  | Some (op, n, u) => Some (rel_time now false n u, op)
+  | Some (op, n, u) => Some (rel_time_go now false n u, op)
   | None => match find_first (m_rel lower true) l with
-            | Some (op, n, u) => Some (rel_time now true n u, op)
+            | Some (op, n, u) => Some (rel_time_go now true n u, op)
             | None => None
             end
   end.
@@ -327,13 +359,23 @@ Definition atom_ok (a : atom) : bool :=
   | _ => true
   end.
 
+(* a NOW() +/- INTERVAL atom on which the pruner's and DuckDB's arithmetic agree (always, except
+   month intervals that start on a day of month the target month does not have) *)
+Definition rel_agree (now : Z) (a : atom) : bool :=
+  match a with
+  | ARel _ _ add n u => rel_time_go now add n u =? rel_time_db now add n u
+  | _ => true
+  end.
+
 (* 0: inside the domain of the soundness theorem; otherwise the first violated hypothesis:
    1 top-level or nested OR, 2 NOT, 3 comparison on a column named timestamp,
-   4 no lower bound (default 2020-01-01), 5 no upper bound (default now + 24 h) *)
+   4 no lower bound (default 2020-01-01), 5 no upper bound (default now + 24 h),
+   6 month interval from a day of month the target month does not have *)
 Definition classify (w : wexpr) (now : Z) : N :=
   if has_or w then 1%N
   else if has_not w then 2%N
   else if negb (forallb atom_ok (flatten w)) then 3%N
+  else if negb (forallb (rel_agree now) (flatten w)) then 6%N
   else match start_of (flatten w) now, end_of (flatten w) now with
        | None, _ => 4%N
        | _, None => 5%N
@@ -389,6 +431,15 @@ Definition pcase_agrees (c : pcase) : bool :=
       | Some hs, Some o => gen_obs_agrees hs o
       | _, _ => false
       end
+  end.
+
+(* validation of the two month-arithmetic definitions: observed Go (pruner under the controlled
+   clock) resp. DuckDB value of  t +/- n months *)
+Inductive mcase := MGo (t n obs : Z) | MDuck (t n obs : Z).
+Definition mcase_agrees (c : mcase) : bool :=
+  match c with
+  | MGo t n obs => go_add_months t n =? obs
+  | MDuck t n obs => duck_add_months t n =? obs
   end.
 
 (* query level: the production path with pruning on and off over a real file layout *)
